@@ -156,25 +156,44 @@ def run(p: Program, rep: Report, tier: str) -> None:
     ems, npaths = data_branch_emissions(p)
     rep.cfg_paths += npaths
     n_hold = 0
+    from . import c01 as _c01
+    from .c01 import _pending_bound
+    from .mp_common import pending_idiom
+    _c01._PROGRAM[:] = [p]
+    proofs = None
     for pa, emit_bound, del_bound, more, no_boundary, node, fnn, has_del in ems:
-        if not more or not no_boundary or emit_bound is None:
+        if not more or emit_bound is None:
             continue
         n_hold += 1
+        pk = _pending_bound(emit_bound, pa, BUF)
+        if pk is not None:
+            proofs = proofs if proofs is not None else pending_idiom(p)
+            pr = proofs.get(pk[0])
+            if pr is None:
+                rep.undecide("R15.4", f"hold-back via self.{pk[0]}.search(buffer): pattern not foldable")
+            elif pr[2] is None:
+                rep.violation("R15.4", construct(ne, text=f"unbounded pending pattern self.{pk[0]}"), where(ne, node), f"the partial-delimiter pattern self.{pk[0]} matches arbitrarily long texts that do not contain the delimiter: the hold-back is not bounded")
+            else:
+                rep.ok("R15.4", f"{'boundary text buffered, ' if not no_boundary else ''}hold-back = the trailing partial delimiter matched by self.{pk[0]}: for content without the delimiter at most len(boundary) + {pr[2] - 1} bytes "
+                                "(longest word of the pattern's language that lacks 'line break -- boundary', boundary counted as one symbol)")
+            continue
         cl = _clamped(emit_bound, BUF)
         tail_search = any(t[0] == "call" and t[1][0] == "attr" and t[1][2] in ("rindex", "rfind") and len(t[2]) >= 2 for t in subterms(emit_bound))
-        if cl is not None and cl[1]:
+        if cl is not None and cl[1] and no_boundary:
             rep.ok("R15.4", f"no boundary buffered: hold-back start is max(last_newline(), len(buffer) - len(boundary) - {cl[0]}): at most len(boundary) + {cl[0]} bytes stay buffered")
         elif tail_search:
             rep.ok("R15.4", "no boundary buffered: the line-break search is restricted to a tail of the buffer")
+        elif cl is not None and not no_boundary:
+            rep.violation("R15.4", construct(ne, text="clamp while a boundary is buffered"), where(ne, node), "the clamp is applied although a complete '--boundary' is buffered (unsound, see C01 R1.3)")
         else:
-            rep.violation("R15.4", construct(ne, text=f"unbounded hold-back: {show(emit_bound)[:70]}"), where(ne, node),
-                          "while no boundary is buffered, a path emits data only up to the earliest of the last CR / last LF of the WHOLE buffer with no lower bound: a part that starts with CR (or LF) and has no later "
+            rep.violation("R15.4", construct(ne, text=f"unbounded hold-back{'' if no_boundary else ' (boundary text buffered)'}: {show(emit_bound)[:70]}"), where(ne, node),
+                          ("while no boundary is buffered" if no_boundary else "while the boundary text is buffered without being a complete delimiter (e.g. content CR + 'x--boundary' + a long run without line break)") + ", a path emits data only up to the earliest of the last CR / last LF of the WHOLE buffer with no lower bound: a part that starts with CR (or LF) and has no later "
                           "line break is kept in memory entirely and re-scanned on every chunk (bytes held are not bounded by chunk + delimiter length + constant)", path_facts=pa.fact_text()[:6])
     if n_hold == 0:
         rep.undecide("R15.4", "no hold-back emission path found in the DATA branch")
     from .c01 import last_newline_shape
     last_newline_shape(p, rep, "R15.4")
-    rep.require_instances("R15.4", 2)
+    rep.require_instances("R15.4", 3)
 
 
 def _block_of(fn: FuncInfo, e: Effect) -> List[ast.stmt]:
